@@ -251,6 +251,11 @@ pub fn compute_checksum(header: &WalFrameHeader, page_data: &[u8]) -> u64 {
 }
 
 pub fn validate_checksum(header: &WalFrameHeader, page_data: &[u8]) -> bool {
+    // CRC-64/ECMA-182 (init 0, xorout 0) of an all-zero frame is 0: a zero-filled file region
+    // (hole, preallocated or lost tail) must not pass for a frame.
+    if header.checksum == 0 && header.salt1 == 0 && header.salt2 == 0 {
+        return false;
+    }
     let computed = compute_checksum(header, page_data);
     computed == header.checksum
 }
